@@ -719,6 +719,8 @@ def for_loop(ex, st, s, cx, o, spec):
             x = SV(t.args[0] if t.kind != 'cfg' else T.CFG, at3(i))
             for fact in ex.type_facts(x):
                 s3 = s3.assume(fact)
+            if t in (T.BYTEARRAY, T.BYTES):
+                s3 = s3.assume(x.z >= 0, x.z <= 255)      # element of a bytes / bytearray object
             s3 = ex.assume_allocated(s3, x)
             if enum:
                 if not (isinstance(tgt, ast.Tuple) and len(tgt.elts) == 2 and all(isinstance(e_, ast.Name) for e_ in tgt.elts)):
@@ -781,6 +783,15 @@ def apply_block(ex, st, name, spec, bstmts, cx):
         conds.append(cz)
         if ex.feasible(pre, cz):
             s_r = pre.assume(cz)
+            if ex.permitted(s_r, kind):
+                outs.append(('raise', s_r, kind))
+            else:
+                ex.oblige(s_r, f'{label}.no-{kind}', z3.BoolVal(False), kind='absence')
+    for kind, cond in spec.get('may_raise', {}).items():
+        cz = eval_clause(ex, pre, cond, scx) if isinstance(cond, str) else z3.BoolVal(True)
+        if ex.feasible(pre, cz):
+            # the state at an abrupt exit of the block is unconstrained on what the block may modify
+            s_r = apply_modifies(ex, pre.assume(cz), spec.get('modifies', []), scx, hint='Bx_' + name.replace('.', '_'))
             if ex.permitted(s_r, kind):
                 outs.append(('raise', s_r, kind))
             else:
